@@ -45,6 +45,11 @@ CONSTANTS
     MAXJUNK,        \* pstore: malformed lines inserted per behaviour
     MAXSAVES,       \* snap: snapshots saved per behaviour
     REKEEP,         \* rot: whether the retention value may change between operations
+    MAXIMPORTS,     \* xfer: imports into the SAME target state manager per behaviour
+    FAULTS,         \* xfer: positions k at which the datastore query under Marshal fails (0 = no fault)
+    MarshalStopsOnError, \* as coded: TRUE (Marshal returns the query error; FALSE = log and go on)
+    TruncInLock,    \* plock, as coded: TRUE (SavePeerstore creates/truncates the file while holding the lock)
+    MAXLOADS,       \* plock: loads per behaviour
     ImportCleans,   \* as coded: TRUE  (ImportState calls Clean first)
     UnmarshalMode,  \* as coded: "replace" (dsstate.Unmarshal removes every existing entry first, since
                     \* commit 2eb6568); "merge" = the former behaviour, kept only as a refutation witness
@@ -79,6 +84,17 @@ ImportResult(s, target) == AddAll(IF ImportCleans THEN {} ELSE target, s)
 \* dsstate.Unmarshal as coded: delete every existing key of the namespace, then Put every decoded entry
 \* ("merge": the former code, no clearing)
 UnmarshalResult(s, target) == AddAll(IF UnmarshalMode = "replace" THEN {} ELSE target, s)
+
+\* dsstate.Marshal over a datastore whose query yields an error instead of its k-th result (k = 0: no
+\* fault).  order = the query order.  As coded the error is returned (the bytes written so far are
+\* useless); "log and go on" would report success with the k-th entry missing.
+MarshalHit(order, k) == k > 0 /\ k <= Len(order)
+MarshalOutcome(order, k) ==
+    IF ~MarshalHit(order, k) THEN [ok |-> TRUE, s |-> order]
+    ELSE IF MarshalStopsOnError THEN [ok |-> FALSE, s |-> SubSeq(order, 1, k - 1)]
+    ELSE [ok |-> TRUE, s |-> SubSeq(order, 1, k - 1) \o SubSeq(order, k + 1, Len(order))]
+\* property: a dump either fails or holds exactly the pinset - never success with fewer pins
+MarshalGood(ps, ok, got) == ok => (IsPinset(got) /\ got = ps)
 
 \* property: exporting ps and importing the stream anywhere yields ps
 ImportGood(source, result) == IsPinset(result) /\ result = source
@@ -234,7 +250,9 @@ VARIABLES
     tgt0,       \* pinset the target held initially ("whatever was there")
     tgt,        \* pinset of the target
     stream,     \* exported / marshalled sequence of entries
-    xst,        \* "init" | "exported" | "imported" | "marshalled" | "unmarshalled"
+    xst,        \* "init" | "exported" | "imported" | "reexported" | "marshalled" | "marshalfailed" | "unmarshalled"
+    nimp,       \* imports done into the target (all through the same state manager)
+    fault,      \* position at which the datastore query under Marshal fails (0: never)
     \* (b) snap
     nsaved,     \* snapshots saved so far
     disk,       \* [has |-> BOOLEAN, ps |-> pinset, idx, term] latest snapshot in the data folder
@@ -243,47 +261,74 @@ VARIABLES
     \* (c) rot
     dirs, keep, nsave, nclean, nops,
     \* (d) pstore
-    book, infos, file, loaded, infos2, pst, fatal, njunk
+    book, infos, file, loaded, infos2, pst, fatal, njunk,
+    \* (e) plock: SavePeerstore / LoadPeerstore running concurrently on one Manager
+    cfile,      \* the peerstore file: sequence of lines
+    clock,      \* peerstoreLock: "free" or the process holding it
+    cpc,        \* process -> program counter
+    coff,       \* saver -> offset of its file descriptor (lines written)
+    cres,       \* set of results LoadPeerstore returned so far
+    nloads
 
-xvars == <<src, tgt0, tgt, stream, xst>>
+xvars == <<src, tgt0, tgt, stream, xst, nimp, fault>>
 svars == <<nsaved, disk, offl, peer>>
 rvars == <<dirs, keep, nsave, nclean, nops>>
 pvars == <<book, infos, file, loaded, infos2, pst, fatal, njunk>>
-vars  == <<xvars, svars, rvars, pvars>>
+cvars == <<cfile, clock, cpc, coff, cres, nloads>>
+vars  == <<xvars, svars, rvars, pvars, cvars>>
 
 NoDisk  == [has |-> FALSE, ps |-> {}, idx |-> 0, term |-> 0]
-XIdle == src = {} /\ tgt0 = {} /\ tgt = {} /\ stream = <<>> /\ xst = "off"
+XIdle == src = {} /\ tgt0 = {} /\ tgt = {} /\ stream = <<>> /\ xst = "off" /\ nimp = 0 /\ fault = 0
+CIdle == cfile = <<>> /\ clock = "free" /\ cpc = <<>> /\ coff = <<>> /\ cres = {} /\ nloads = 0
 SIdle == nsaved = 0 /\ disk = NoDisk /\ offl = [valid |-> FALSE, ps |-> {}] /\ peer = [up |-> FALSE, ps |-> {}]
 RIdle == dirs = [data |-> Absent, old |-> [j \in 1..MAXIDX + 1 |-> Absent]] /\ keep = 1 /\ nsave = 0 /\ nclean = 0 /\ nops = 0
 PIdle == book = <<>> /\ infos = <<>> /\ file = <<>> /\ loaded = <<>> /\ infos2 = <<>> /\ pst = "off" /\ fatal = FALSE /\ njunk = 0
 
 ---------------------------------------------------------------------------
 \* (a)
-XInit == src \in Pinsets /\ tgt0 \in Pinsets /\ tgt = tgt0 /\ stream = <<>> /\ xst = "init"
-Export ==
-    /\ Machine = "xfer" /\ UNCHANGED <<svars, rvars, pvars>>
-    /\ xst = "init"
+XInit == /\ src \in Pinsets /\ tgt0 \in Pinsets /\ tgt = tgt0 /\ stream = <<>> /\ xst = "init"
+         /\ nimp = 0 /\ fault \in FAULTS
+Export ==           \* ExportState on some other peer holding src
+    /\ Machine = "xfer" /\ UNCHANGED <<svars, rvars, pvars, cvars>>
+    /\ xst = "init" /\ fault = 0
     /\ stream' \in {s \in Perms(src) : ExportConforms(src, s)}
-    /\ xst' = "exported" /\ UNCHANGED <<src, tgt0, tgt>>
-Import ==
-    /\ Machine = "xfer" /\ UNCHANGED <<svars, rvars, pvars>>
+    /\ xst' = "exported" /\ UNCHANGED <<src, tgt0, tgt, nimp, fault>>
+Import ==           \* ImportState on the target's state manager
+    /\ Machine = "xfer" /\ UNCHANGED <<svars, rvars, pvars, cvars>>
     /\ xst = "exported"
     /\ tgt' = ImportResult(stream, tgt)
-    /\ xst' = "imported" /\ UNCHANGED <<src, tgt0, stream>>
+    /\ nimp' = nimp + 1
+    /\ xst' = "imported" /\ UNCHANGED <<src, tgt0, stream, fault>>
+ReExport ==         \* ExportState on the SAME manager that just imported
+    /\ Machine = "xfer" /\ UNCHANGED <<svars, rvars, pvars, cvars>>
+    /\ xst = "imported"
+    /\ stream' \in {s \in Perms(tgt) : ExportConforms(tgt, s)}
+    /\ xst' = "reexported" /\ UNCHANGED <<src, tgt0, tgt, nimp, fault>>
+NextSource ==       \* a different pinset gets exported somewhere and imported into the same target again
+    /\ Machine = "xfer" /\ UNCHANGED <<svars, rvars, pvars, cvars>>
+    /\ xst \in {"imported", "reexported"} /\ nimp < MAXIMPORTS
+    /\ src' \in Pinsets \ {src}
+    /\ stream' = <<>> /\ xst' = "init" /\ UNCHANGED <<tgt0, tgt, nimp, fault>>
 Marshal ==
-    /\ Machine = "xfer" /\ UNCHANGED <<svars, rvars, pvars>>
-    /\ xst = "init"
-    /\ stream' \in Perms(src)
-    /\ xst' = "marshalled" /\ UNCHANGED <<src, tgt0, tgt>>
+    /\ Machine = "xfer" /\ UNCHANGED <<svars, rvars, pvars, cvars>>
+    /\ xst = "init" /\ nimp = 0
+    /\ \E order \in Perms(src) :
+          LET o == MarshalOutcome(order, fault) IN
+          /\ stream' = o.s
+          /\ xst' = IF o.ok THEN "marshalled" ELSE "marshalfailed"
+    /\ UNCHANGED <<src, tgt0, tgt, nimp, fault>>
 Unmarshal ==
-    /\ Machine = "xfer" /\ UNCHANGED <<svars, rvars, pvars>>
+    /\ Machine = "xfer" /\ UNCHANGED <<svars, rvars, pvars, cvars>>
     /\ xst = "marshalled"
     /\ tgt' = UnmarshalResult(stream, tgt)
-    /\ xst' = "unmarshalled" /\ UNCHANGED <<src, tgt0, stream>>
-XNext == Export \/ Import \/ Marshal \/ Unmarshal
+    /\ xst' = "unmarshalled" /\ UNCHANGED <<src, tgt0, stream, nimp, fault>>
+XNext == Export \/ Import \/ ReExport \/ NextSource \/ Marshal \/ Unmarshal
 
-ExportLaw       == xst = "exported" => ExportGood(src, stream)
-ImportLaw       == xst = "imported" => ImportGood(src, tgt)
+ExportLaw       == /\ xst = "exported" => ExportGood(src, stream)
+                   /\ xst = "reexported" => ExportGood(tgt, stream)
+\* a successful Marshal holds the whole pinset (refuted by TLC for MarshalStopsOnError = FALSE)
+MarshalLaw      == xst = "marshalled" => MarshalGood(src, TRUE, Range(stream))
+ImportLaw       == xst \in {"imported", "reexported"} => ImportGood(src, tgt)    \* after EVERY import on the manager
 SerialLawFresh  == (xst = "unmarshalled" /\ tgt0 = {}) => ImportGood(src, tgt)
 SerialLawAny    == xst = "unmarshalled" => ImportGood(src, tgt)       \* required; refuted by TLC for "merge"
 
@@ -291,7 +336,7 @@ SerialLawAny    == xst = "unmarshalled" => ImportGood(src, tgt)       \* require
 \* (b)
 SInit == SIdle
 SnapSave(ps) ==
-    /\ Machine = "snap" /\ UNCHANGED <<xvars, rvars, pvars>>
+    /\ Machine = "snap" /\ UNCHANGED <<xvars, rvars, pvars, cvars>>
     /\ nsaved < MAXSAVES
     /\ disk' = [has |-> TRUE, ps |-> ps,
                 \* no snapshot: index 2, term 1 ("begin the log after the index of a fresh start");
@@ -300,7 +345,7 @@ SnapSave(ps) ==
     /\ nsaved' = nsaved + 1
     /\ offl' = [valid |-> FALSE, ps |-> {}] /\ peer' = [up |-> FALSE, ps |-> {}]
 Offline ==
-    /\ Machine = "snap" /\ UNCHANGED <<xvars, rvars, pvars>>
+    /\ Machine = "snap" /\ UNCHANGED <<xvars, rvars, pvars, cvars>>
     /\ ~offl.valid
     /\ offl' = [valid |-> TRUE, ps |-> IF disk.has THEN disk.ps ELSE {}]
     /\ UNCHANGED <<nsaved, disk, peer>>
@@ -309,7 +354,7 @@ Offline ==
 \* stray pin when there is a snapshot to restore.
 StrayStores == {{}, {[c |-> "c9", v |-> "vS"]}}
 StartPeer ==
-    /\ Machine = "snap" /\ UNCHANGED <<xvars, rvars, pvars>>
+    /\ Machine = "snap" /\ UNCHANGED <<xvars, rvars, pvars, cvars>>
     /\ ~peer.up
     /\ \E st0 \in StrayStores :
           /\ st0 # {} => disk.has
@@ -330,7 +375,7 @@ RInit ==
           dirs = [data |-> Absent, old |-> [j \in 1..MAXIDX + 1 |-> IF (j - 1) \in S THEN "b" \o ToString(j - 1) ELSE Absent]]
     /\ nsave = 0 /\ nclean = 0 /\ nops = 0
 RotSave ==
-    /\ Machine = "rot" /\ UNCHANGED <<xvars, svars, pvars>>
+    /\ Machine = "rot" /\ UNCHANGED <<xvars, svars, pvars, cvars>>
     /\ nops < MAXOPS
     /\ HasSnap(dirs.data) => nclean < MAXCLEAN
     /\ dirs' = SaveDirs(dirs, keep, Marker(nsave + 1))
@@ -338,7 +383,7 @@ RotSave ==
     /\ nclean' = IF HasSnap(dirs.data) THEN nclean + 1 ELSE nclean
     /\ UNCHANGED keep
 RotClean ==
-    /\ Machine = "rot" /\ UNCHANGED <<xvars, svars, pvars>>
+    /\ Machine = "rot" /\ UNCHANGED <<xvars, svars, pvars, cvars>>
     /\ nops < MAXOPS
     /\ HasSnap(dirs.data) => nclean < MAXCLEAN
     /\ dirs' = CleanDirs(dirs, keep)
@@ -346,14 +391,14 @@ RotClean ==
     /\ nclean' = IF HasSnap(dirs.data) THEN nclean + 1 ELSE nclean
     /\ UNCHANGED <<keep, nsave>>
 RotMkLogs ==                      \* a data folder with Raft logs but no snapshot appears
-    /\ Machine = "rot" /\ UNCHANGED <<xvars, svars, pvars>>
+    /\ Machine = "rot" /\ UNCHANGED <<xvars, svars, pvars, cvars>>
     /\ nops < MAXOPS
     /\ dirs.data = Absent
     /\ dirs' = [dirs EXCEPT !.data = NoSnap]
     /\ nops' = nops + 1
     /\ UNCHANGED <<keep, nsave, nclean>>
 RotRekeep ==                      \* the operator edits backups_rotate between runs
-    /\ Machine = "rot" /\ UNCHANGED <<xvars, svars, pvars>>
+    /\ Machine = "rot" /\ UNCHANGED <<xvars, svars, pvars, cvars>>
     /\ REKEEP /\ nops < MAXOPS /\ nops > 0
     /\ keep' \in KEEPS \ {keep}
     /\ nops' = nops + 1
@@ -379,7 +424,7 @@ PInit ==
 \* every duplicate-free sequence over a subset of some address set
 AddrSeqs == UNION {Perms(B) : B \in UNION {SUBSET A : A \in ADDRSETS}}
 PSave ==            \* Cluster shutdown: SavePeerstoreForPeers(all peers)
-    /\ Machine = "pstore" /\ UNCHANGED <<xvars, svars, rvars>>
+    /\ Machine = "pstore" /\ UNCHANGED <<xvars, svars, rvars, cvars>>
     /\ pst = "init"
     /\ \E li \in {s \in Perms(Listed(book, PEERS, PSelf)) :
                      \A i, j \in DOMAIN s : i < j => Prio(book, s[i]) <= Prio(book, s[j])} :
@@ -390,18 +435,18 @@ PSave ==            \* Cluster shutdown: SavePeerstoreForPeers(all peers)
             /\ file' = FileOf(is)
     /\ pst' = "saved" /\ UNCHANGED <<book, loaded, infos2, fatal, njunk>>
 PCorrupt ==         \* somebody edits the file
-    /\ Machine = "pstore" /\ UNCHANGED <<xvars, svars, rvars>>
+    /\ Machine = "pstore" /\ UNCHANGED <<xvars, svars, rvars, cvars>>
     /\ pst = "saved" /\ njunk < MAXJUNK
     /\ \E i \in 0..Len(file), j \in JUNK :
           file' = SubSeq(file, 1, i) \o <<[t |-> j, p |-> "", k |-> ""]>> \o SubSeq(file, i + 1, Len(file))
     /\ njunk' = njunk + 1 /\ UNCHANGED <<book, infos, loaded, infos2, pst, fatal>>
 PLoad ==
-    /\ Machine = "pstore" /\ UNCHANGED <<xvars, svars, rvars>>
+    /\ Machine = "pstore" /\ UNCHANGED <<xvars, svars, rvars, cvars>>
     /\ pst = "saved"
     /\ loaded' = LoadExpected(file)
     /\ pst' = "loaded" /\ UNCHANGED <<book, infos, file, infos2, fatal, njunk>>
 PImport ==          \* a fresh peer: ImportPeersFromPeerstore, then PeerInfos of everybody
-    /\ Machine = "pstore" /\ UNCHANGED <<xvars, svars, rvars>>
+    /\ Machine = "pstore" /\ UNCHANGED <<xvars, svars, rvars, cvars>>
     /\ pst = "loaded"
     /\ IF \E i \in DOMAIN loaded : loaded[i].t = "nil"
        THEN fatal' = TRUE /\ infos2' = <<>>          \* nil multiaddress dereferenced
@@ -424,12 +469,76 @@ RoundTrip == pst = "imported" =>
 NotFatal  == ~fatal
 
 ---------------------------------------------------------------------------
+\* (e) SavePeerstore and LoadPeerstore of ONE pstoremgr.Manager running concurrently.
+\*   SavePeerstore: Lock; os.Create (truncate, own descriptor at offset 0); one Write per address; Unlock
+\*   LoadPeerstore: Lock; open and read the whole file; Unlock
+\* TruncInLock = FALSE is the variant that creates the file before taking the lock.
+CLists == [A |-> <<"a1", "a2">>, B |-> <<"b1", "b2", "b3">>, Z |-> <<"z1">>]
+Savers == {"A", "B"}
+CInit ==
+    /\ cfile = CLists.Z /\ clock = "free"
+    /\ cpc = [p \in Savers \cup {"L"} |-> "start"]
+    /\ coff = [p \in Savers |-> 0]
+    /\ cres = {} /\ nloads = 0
+\* a Write of one line through a descriptor at line offset o (holes read back as "?")
+WriteAt(f, o, l) ==
+    IF o < Len(f) THEN [f EXCEPT ![o + 1] = l]
+    ELSE f \o [i \in 1..(o - Len(f)) |-> "?"] \o <<l>>
+CTrunc(p) == cfile' = <<>> /\ coff' = [coff EXCEPT ![p] = 0]
+CSaveLock(p) ==
+    /\ Machine = "plock" /\ UNCHANGED <<xvars, svars, rvars, pvars>>
+    /\ p \in Savers /\ cpc[p] = (IF TruncInLock THEN "start" ELSE "created") /\ clock = "free"
+    /\ clock' = p
+    /\ IF TruncInLock THEN CTrunc(p) ELSE UNCHANGED <<cfile, coff>>
+    /\ cpc' = [cpc EXCEPT ![p] = "writing"] /\ UNCHANGED <<cres, nloads>>
+CSaveCreateEarly(p) ==        \* only in the variant: truncate without holding the lock
+    /\ Machine = "plock" /\ UNCHANGED <<xvars, svars, rvars, pvars>>
+    /\ ~TruncInLock /\ p \in Savers /\ cpc[p] = "start"
+    /\ CTrunc(p)
+    /\ cpc' = [cpc EXCEPT ![p] = "created"] /\ UNCHANGED <<clock, cres, nloads>>
+CSaveWrite(p) ==
+    /\ Machine = "plock" /\ UNCHANGED <<xvars, svars, rvars, pvars>>
+    /\ p \in Savers /\ cpc[p] = "writing" /\ coff[p] < Len(CLists[p])
+    /\ cfile' = WriteAt(cfile, coff[p], CLists[p][coff[p] + 1])
+    /\ coff' = [coff EXCEPT ![p] = @ + 1]
+    /\ UNCHANGED <<clock, cpc, cres, nloads>>
+CSaveUnlock(p) ==
+    /\ Machine = "plock" /\ UNCHANGED <<xvars, svars, rvars, pvars>>
+    /\ p \in Savers /\ cpc[p] = "writing" /\ coff[p] = Len(CLists[p])
+    /\ clock' = "free" /\ cpc' = [cpc EXCEPT ![p] = "done"]
+    /\ UNCHANGED <<cfile, coff, cres, nloads>>
+CLoadLock ==
+    /\ Machine = "plock" /\ UNCHANGED <<xvars, svars, rvars, pvars>>
+    /\ cpc["L"] = "start" /\ clock = "free" /\ nloads < MAXLOADS
+    /\ clock' = "L" /\ cpc' = [cpc EXCEPT !["L"] = "reading"]
+    /\ UNCHANGED <<cfile, coff, cres, nloads>>
+CLoadRead ==
+    /\ Machine = "plock" /\ UNCHANGED <<xvars, svars, rvars, pvars>>
+    /\ cpc["L"] = "reading"
+    /\ cres' = cres \cup {cfile} /\ nloads' = nloads + 1
+    /\ clock' = "free" /\ cpc' = [cpc EXCEPT !["L"] = "start"]
+    /\ UNCHANGED <<cfile, coff>>
+CNext == (\E p \in Savers : CSaveLock(p) \/ CSaveCreateEarly(p) \/ CSaveWrite(p) \/ CSaveUnlock(p)) \/ CLoadLock \/ CLoadRead
+
+\* property (statement: the file reads back as the same addresses in the same order): a load never
+\* returns a torn list - it is exactly the initial content or one saved list, whole
+WholeLists == {CLists[k] : k \in DOMAIN CLists}
+NoTornLoad == cres \subseteq WholeLists
+FinalFile  == (\A p \in Savers : cpc[p] = "done") => cfile \in {CLists[p] : p \in Savers}
+\* the same predicate on a result projected to segments [l |-> list, from, to] (PersistTrace):
+WholeSegs(segs, sizes) ==
+    /\ Len(segs) = 1
+    /\ segs[1].l \in DOMAIN sizes
+    /\ segs[1].from = 1 /\ segs[1].to = sizes[segs[1].l]
+
+---------------------------------------------------------------------------
 Init ==
-    \/ Machine = "xfer"   /\ XInit /\ SIdle /\ RIdle /\ PIdle
-    \/ Machine = "snap"   /\ SInit /\ XIdle /\ RIdle /\ PIdle
-    \/ Machine = "rot"    /\ RInit /\ XIdle /\ SIdle /\ PIdle
-    \/ Machine = "pstore" /\ PInit /\ XIdle /\ SIdle /\ RIdle
-Next == XNext \/ SNext \/ RNext \/ PNext
+    \/ Machine = "xfer"   /\ XInit /\ SIdle /\ RIdle /\ PIdle /\ CIdle
+    \/ Machine = "snap"   /\ SInit /\ XIdle /\ RIdle /\ PIdle /\ CIdle
+    \/ Machine = "rot"    /\ RInit /\ XIdle /\ SIdle /\ PIdle /\ CIdle
+    \/ Machine = "pstore" /\ PInit /\ XIdle /\ SIdle /\ RIdle /\ CIdle
+    \/ Machine = "plock"  /\ CInit /\ XIdle /\ SIdle /\ RIdle /\ PIdle
+Next == XNext \/ SNext \/ RNext \/ PNext \/ CNext
 Spec == Init /\ [][Next]_vars
 
 RotSteps == [][RotCleanStep /\ RotSaveStep]_vars
